@@ -666,4 +666,149 @@ Proof. intros Hv. unfold SetOPCR. rewrite valid_p. cbn [bind].
       rewrite Lb6 in F. rewrite Le6. exact F.
   - cbn [ok_out]. apply (rel_any _ []); [reflexivity|constructor|discriminate|cbn [spec_step]; rewrite E; reflexivity].
 Qed.
+
+Lemma var_tail Pre0 oldlen X R data : len X = len data -> len data < 256 ->
+  (let? _ := slice (pk h0 h1 h2 h3 L (flags l) (Pre0 ++ [oldlen] ++ X ++ R)) (6 + len Pre0 + 1) (6 + len Pre0 + 1 + len data) in
+   set_idx (blit (pk h0 h1 h2 h3 L (flags l) (Pre0 ++ [oldlen] ++ X ++ R)) (6 + len Pre0 + 1) data)
+           (6 + len Pre0 + 1 - 1) (w8 (len data)))
+  = Ok (pk h0 h1 h2 h3 L (flags l) (Pre0 ++ (len data :: data) ++ R)).
+Proof. intros HX Hd.
+  assert (E1: pk h0 h1 h2 h3 L (flags l) (Pre0 ++ [oldlen] ++ X ++ R) =
+              (H6 h0 h1 h2 h3 L (flags l) ++ Pre0 ++ [oldlen]) ++ X ++ R)
+    by (rewrite pk_H6, <- !app_assoc; reflexivity).
+  rewrite E1. rewrite (slice_mid _ X R) by (rewrite ?len_app, ?len_H6; change (len [oldlen]) with 1; lia).
+  cbn [bind]. rewrite (blit_mid _ X R data) by (rewrite ?len_app, ?len_H6; change (len [oldlen]) with 1; lia).
+  replace ((H6 h0 h1 h2 h3 L (flags l) ++ Pre0 ++ [oldlen]) ++ data ++ R)
+    with ((H6 h0 h1 h2 h3 L (flags l) ++ Pre0) ++ oldlen :: (data ++ R)) by (rewrite <- !app_assoc; reflexivity).
+  rewrite set_idx_at by (rewrite len_app, len_H6; lia).
+  unfold w8. rewrite N.mod_small by exact Hd. rewrite pk_H6, <- !app_assoc. reflexivity. Qed.
+
+Lemma set_var_p Pre0 old Post data :
+  body l = Pre0 ++ (len old :: old) ++ Post -> (len data <= L - content_len l + len old -> len data < 256) ->
+  set_var p (6 + len Pre0) (1 + len old) data =
+    if L - content_len l + len old <? len data then Err E.AdaptationFieldCannotGrow
+    else Ok (pk h0 h1 h2 h3 L (flags l)
+               ((Pre0 ++ (len data :: data) ++ Post) ++ repeatN 255 (L - content_len l + len old - len data) ++ pay)).
+Proof. intros HB Hd. unfold set_var.
+  pose proof Hfits as F. unfold fits in F.
+  assert (HB': body l = (Pre0 ++ [len old]) ++ old ++ Post) by (rewrite HB, <- !app_assoc; reflexivity).
+  replace (6 + len Pre0 + 1) with (6 + len (Pre0 ++ [len old])) at 1 by (rewrite len_app; change (len [len old]) with 1; lia).
+  destruct (N.lt_trichotomy (len data) (len old)) as [Lt|[Eq|Gt]].
+  - (* shrink *)
+    replace (L - content_len l + len old <? len data) with false by (symmetry; apply N.ltb_ge; lia).
+    set (d := len old - len data).
+    assert (LD: len (takeN d old) = d) by (apply len_takeN; unfold d; lia).
+    rewrite (shrink_at' (Pre0 ++ [len old]) (takeN d old) (dropN d old ++ Post)).
+    2:{ rewrite HB'. f_equal. rewrite app_assoc, takeN_dropN. reflexivity. }
+    2:{ rewrite LD. unfold d. lia. }
+    2:{ rewrite LD. clear LD. unfold d, zlen, len in *. lia. }
+    cbn [bind]. rewrite LD.
+    replace ((Pre0 ++ [len old]) ++ (dropN d old ++ Post) ++ repeatN 255 d ++ St ++ pay)
+      with (Pre0 ++ [len old] ++ dropN d old ++ (Post ++ repeatN 255 d ++ St ++ pay))
+      by (rewrite <- !app_assoc; reflexivity).
+    rewrite var_tail by (try apply Hd; rewrite ?len_dropN; unfold d; lia).
+    do 2 f_equal. rewrite <- !app_assoc. cbn [app]. do 3 f_equal.
+    unfold stuff. rewrite (app_assoc (repeatN 255 d)), <- repeatN_add. unfold d.
+    replace (len old - len data + (L - content_len l)) with (L - content_len l + len old - len data) by lia. reflexivity.
+  - (* same size *)
+    replace (L - content_len l + len old <? len data) with false by (symmetry; apply N.ltb_ge; lia).
+    replace (zlen data - (Z.of_N (1 + len old) - 1))%Z with 0%Z by (unfold zlen, len in *; lia).
+    rewrite zero_at. cbn [bind]. unfold cpk. rewrite HB.
+    replace ((Pre0 ++ (len old :: old) ++ Post) ++ St ++ pay) with (Pre0 ++ [len old] ++ old ++ (Post ++ St ++ pay))
+      by (rewrite <- !app_assoc; reflexivity).
+    rewrite var_tail by (try apply Hd; lia).
+    do 2 f_equal. rewrite <- !app_assoc. cbn [app]. do 3 f_equal. unfold stuff.
+    replace (L - content_len l + len old - len data) with (L - content_len l) by lia. reflexivity.
+  - (* grow *)
+    set (d := len data - len old).
+    rewrite (grow_at' (Pre0 ++ [len old]) (old ++ Post) d).
+    2:{ exact HB'. }
+    2:{ unfold d. lia. }
+    2:{ unfold d, zlen, len in *. lia. }
+    destruct (N.ltb_spec (L - content_len l) d) as [T|T].
+    + replace (L - content_len l + len old <? len data) with true by (symmetry; apply N.ltb_lt; unfold d in T; lia).
+      reflexivity.
+    + replace (L - content_len l + len old <? len data) with false by (symmetry; apply N.ltb_ge; unfold d in T; lia).
+      cbn [bind].
+      assert (ET: takeN d ((old ++ Post) ++ St) ++ (old ++ Post) ++ dropN d St ++ pay =
+                  (takeN d ((old ++ Post) ++ St) ++ old) ++ (Post ++ dropN d St ++ pay))
+        by (rewrite <- !app_assoc; reflexivity).
+      replace ((Pre0 ++ [len old]) ++ takeN d ((old ++ Post) ++ St) ++ (old ++ Post) ++ dropN d St ++ pay)
+        with (Pre0 ++ [len old] ++ (takeN d ((old ++ Post) ++ St) ++ old) ++ (Post ++ dropN d St ++ pay))
+        by (rewrite ET, <- !app_assoc; reflexivity).
+      rewrite var_tail.
+      * do 2 f_equal. rewrite <- !app_assoc. cbn [app]. do 3 f_equal.
+        unfold stuff. rewrite dropN_repeatN. unfold d.
+        replace (L - content_len l + len old - len data) with (L - content_len l - (len data - len old)) by lia. reflexivity.
+      * rewrite len_app, len_takeN by (rewrite !len_app, len_St; lia). unfold d. lia.
+      * apply Hd. unfold d in T. lia.
+Qed.
+
+Lemma settpd_ok data : is_bytes data -> ok_out h0 h1 h2 h3 pay l (OSetTPD data) (SetTransportPrivateData p data).
+Proof. intros Bd. unfold SetTransportPrivateData. rewrite valid_p. cbn [bind].
+  destruct has_l as (_ & _ & _ & HP & _). rewrite HP. clear HP.
+  pose proof Hwf as (WL & WP & WO & WS & WT & WE). pose proof Hfits as F. unfold fits in F.
+  destruct (l_tpd l) as [old|] eqn:E; cbn [isSome negb].
+  - change (ok_out h0 h1 h2 h3 pay l (OSetTPD data)
+      (set_var p (transportPrivateDataStart p) (transportPrivateDataLength p) data)).
+    rewrite tps_p, tpl_p, E. cbn [encv]. rewrite len_cons.
+    replace (6 + len Fp + len Fo + len Fs) with (6 + len (Fp ++ Fo ++ Fs)) by (rewrite !len_app; lia).
+    assert (CL: content_len l = 1 + len Fp + len Fo + len Fs + (1 + len old) + len Fe).
+    { rewrite content_len_eq, E. cbn [encv]. rewrite len_cons. reflexivity. }
+    assert (CL': content_len (set_tpd l (Some data)) = 1 + len Fp + len Fo + len Fs + (1 + len data) + len Fe).
+    { rewrite content_len_eq. cbn [set_tpd l_pcr l_opcr l_splice l_tpd l_ext encv]. rewrite len_cons. reflexivity. }
+    rewrite (set_var_p (Fp ++ Fo ++ Fs) old Fe data).
+    2:{ unfold body. rewrite E. cbn [encv]. rewrite <- !app_assoc. reflexivity. }
+    2:{ lia. }
+    destruct (N.ltb_spec (L - content_len l + len old) (len data)) as [T|T]; cbn [ok_out].
+    + apply rel_nojunk; [reflexivity|discriminate|]. cbn [spec_step]. rewrite E. cbn [isSome]. unfold grow.
+      rewrite fitsb_false; [reflexivity|]. rewrite CL'. cbn [set_tpd l_len]. lia.
+    + assert (F': fits (set_tpd l (Some data))). { unfold fits. rewrite CL'. cbn [set_tpd l_len]. lia. }
+      exists (set_tpd l (Some data)).
+      split; [apply rel_nojunk; [reflexivity|discriminate|]; cbn [spec_step]; rewrite E; cbn [isSome];
+              unfold grow; rewrite fitsb_true by exact F'; reflexivity|].
+      split; [|split; [|split; [exact F'|reflexivity]]].
+      * replace ((Fp ++ Fo ++ Fs) ++ (len data :: data) ++ Fe) with (Fp ++ Fo ++ Fs ++ (len data :: data) ++ Fe)
+          by (rewrite <- !app_assoc; reflexivity).
+        apply recanon; try reflexivity.
+        -- rewrite !flags_fl8. cbn [set_tpd l_disc l_rai l_prio l_pcr l_opcr l_splice l_tpd l_ext]. rewrite E. reflexivity.
+        -- rewrite CL'. cbn [set_tpd l_len]. lia.
+      * unfold wf_laf. cbn [set_tpd l_pcr l_opcr l_splice l_tpd l_ext l_len opt_bytes].
+        repeat split; try assumption; try lia; try apply WP; try apply WO.
+  - cbn [ok_out]. apply rel_nojunk; [reflexivity|discriminate|cbn [spec_step]; rewrite E; reflexivity].
+Qed.
+
+Lemma setext_ok data : is_bytes data -> ok_out h0 h1 h2 h3 pay l (OSetExt data) (SetAdaptationFieldExtension p data).
+Proof. intros Bd. unfold SetAdaptationFieldExtension. rewrite valid_p. cbn [bind].
+  destruct has_l as (_ & _ & _ & _ & HP & _). rewrite HP. clear HP.
+  pose proof Hwf as (WL & WP & WO & WS & WT & WE). pose proof Hfits as F. unfold fits in F.
+  destruct (l_ext l) as [old|] eqn:E; cbn [isSome negb].
+  - change (ok_out h0 h1 h2 h3 pay l (OSetExt data)
+      (set_var p (adaptationExtensionStart p) (adaptationExtensionLength p) data)).
+    rewrite exs_p, exl_p, E. cbn [encv]. rewrite len_cons.
+    replace (6 + len Fp + len Fo + len Fs + len Ft) with (6 + len (Fp ++ Fo ++ Fs ++ Ft)) by (rewrite !len_app; lia).
+    assert (CL: content_len l = 1 + len Fp + len Fo + len Fs + len Ft + (1 + len old)).
+    { rewrite content_len_eq, E. cbn [encv]. rewrite len_cons. reflexivity. }
+    assert (CL': content_len (set_ext l (Some data)) = 1 + len Fp + len Fo + len Fs + len Ft + (1 + len data)).
+    { rewrite content_len_eq. cbn [set_ext l_pcr l_opcr l_splice l_tpd l_ext encv]. rewrite len_cons. reflexivity. }
+    rewrite (set_var_p (Fp ++ Fo ++ Fs ++ Ft) old [] data).
+    2:{ unfold body. rewrite E. cbn [encv]. rewrite <- !app_assoc, app_nil_r. reflexivity. }
+    2:{ lia. }
+    destruct (N.ltb_spec (L - content_len l + len old) (len data)) as [T|T]; cbn [ok_out].
+    + apply rel_nojunk; [reflexivity|discriminate|]. cbn [spec_step]. rewrite E. cbn [isSome]. unfold grow.
+      rewrite fitsb_false; [reflexivity|]. rewrite CL'. cbn [set_ext l_len]. lia.
+    + assert (F': fits (set_ext l (Some data))). { unfold fits. rewrite CL'. cbn [set_ext l_len]. lia. }
+      exists (set_ext l (Some data)).
+      split; [apply rel_nojunk; [reflexivity|discriminate|]; cbn [spec_step]; rewrite E; cbn [isSome];
+              unfold grow; rewrite fitsb_true by exact F'; reflexivity|].
+      split; [|split; [|split; [exact F'|reflexivity]]].
+      * replace ((Fp ++ Fo ++ Fs ++ Ft) ++ (len data :: data) ++ []) with (Fp ++ Fo ++ Fs ++ Ft ++ (len data :: data))
+          by (rewrite <- !app_assoc, app_nil_r; reflexivity).
+        apply recanon; try reflexivity.
+        -- rewrite !flags_fl8. cbn [set_ext l_disc l_rai l_prio l_pcr l_opcr l_splice l_tpd l_ext]. rewrite E. reflexivity.
+        -- rewrite CL'. cbn [set_ext l_len]. lia.
+      * unfold wf_laf. cbn [set_ext l_pcr l_opcr l_splice l_tpd l_ext l_len opt_bytes].
+        repeat split; try assumption; try lia; try apply WP; try apply WO.
+  - cbn [ok_out]. apply rel_nojunk; [reflexivity|discriminate|cbn [spec_step]; rewrite E; reflexivity].
+Qed.
 End Setters.
